@@ -133,7 +133,7 @@ func hopByHopHeaderRemove(outreq, req *bfe_http.Request) {
 			continue
 		}
 
-		if h == "Te" && hv == "trailers" {
+		if h == "Te" && hv == "trailers" && len(outreq.Header[h]) == 1 {
 			// Issue 21096: tell backend applications that
 			// care about trailer support that we support
 			// trailers. (We do, but we don't go out of
